@@ -74,6 +74,12 @@ func registerSignatures() {
 	// Error() is the name and message captured at construction, not of the thrown value.
 	engine.RegisterSignature("c19-error-text-snapshot", func(m *engine.Mismatch) bool {
 		a := m.Aux
+		if a != nil && (a["history"] == "prototype-name-edited" || a["history"] == "prototype-name-deleted") {
+			// the name an interpreter-raised error shows to the script comes from the (edited)
+			// prototype; the Go-side text uses the internal class name
+			return strings.HasSuffix(m.Key, "#text") && a["expected_name"] != a["class"] &&
+				m.Expected == a["expected_name"]+": "+a["message"] && m.Observed == a["class"]+": "+a["message"]
+		}
 		if a == nil || a["group"] != "throw-modified" {
 			return false
 		}
